@@ -39,7 +39,15 @@ func eqSlice(a, b []uint32) bool {
 
 func sorted(a []uint32) []uint32 {
 	b := append([]uint32{}, a...)
-	sort.Slice(b, func(i, j int) bool { return b[i] < b[j] })
+	if len(b) > 16 {
+		sort.Slice(b, func(i, j int) bool { return b[i] < b[j] })
+		return b
+	}
+	for i := 1; i < len(b); i++ { // tiny slices: insertion sort
+		for j := i; j > 0 && b[j] < b[j-1]; j-- {
+			b[j], b[j-1] = b[j-1], b[j]
+		}
+	}
 	return b
 }
 
@@ -352,14 +360,11 @@ func (w *setWorld) apply(o sop, full bool) (string, string) {
 			}
 			// contents must be exactly the argument's elements; the order after a Replace is not demanded
 			// (retained elements could keep their position or follow the argument's order)
-			if now := w.s.ToSlice(); eqAsSets(now, argElems) {
-				w.order = now
-			} else {
-				w.order = append([]uint32{}, argElems...)
-			}
+			now := w.s.ToSlice()
+			w.order = now
 			got := ret.ToSlice()
-			if !eqAsSets(w.order, argElems) {
-				bad("contents", "Replace(%v) on %v left the set as %v", argElems, before, w.s.ToSlice())
+			if !eqAsSets(now, argElems) {
+				bad("contents", "Replace(%v) on %v left the set as %v", argElems, before, now)
 			} else if !eqAsSets(got, want) {
 				kind := "returned-set"
 				if eqAsSets(got, before) {
@@ -583,7 +588,7 @@ func setAlphabet(uni int) []sop {
 						disjoint = false
 					}
 				}
-				if disjoint {
+				if disjoint && (k == "Apply" || (len(x) <= 1 && len(y) <= 1)) { // Compute = Apply + factory: small mutations suffice
 					a = append(a, sop{K: k, A: x, D: y})
 				}
 			}
